@@ -247,19 +247,26 @@ def check_tree(tree, freqs, st, viol, keys, label):
     except Exception as e:
         bad(f"C01/object-build-raised:{type(e).__name__}", monitors.tb_tail(e))
         return
-    text = c_obj.to_string(17)
+    objects_only = bool(tree.get("_objects_only"))  # empty nested connections exist in the object API only
+    text = c_obj.to_string(17) if not objects_only else ""
     routes = {"objects": c_obj}
     try:
-        routes["parser"] = parse_cdc(text)
+        routes["objects-topdown"] = G.build_objects(tree, form="topdown")
+        st["topdown"] = st.get("topdown", 0) + 1
     except Exception as e:
-        bad(f"C01/parse-raised:{type(e).__name__}", f"{type(e).__name__}: {e} | {text[:300]}")
-    if G.builder_ok(tree):
+        bad(f"C01/topdown-build-raised:{type(e).__name__}", monitors.tb_tail(e))
+    if not objects_only:
+        try:
+            routes["parser"] = parse_cdc(text)
+        except Exception as e:
+            bad(f"C01/parse-raised:{type(e).__name__}", f"{type(e).__name__}: {e} | {text[:300]}")
+    if G.builder_ok(tree) and not objects_only:
         try:
             routes["builder"] = G.build_builder(tree)
         except Exception as e:
             bad(f"C01/builder-raised:{type(e).__name__}", monitors.tb_tail(e))
     # CircuitBuilder filled incrementally, converted midway, and converted again after a held element changed
-    if G.builder_ok(tree):
+    if G.builder_ok(tree) and not objects_only:
         try:
             first, second, (che, chk, chv) = G.build_builder_incremental(tree)
             routes["builder-incremental"] = first
@@ -542,6 +549,9 @@ def run_case(case):
         kinds = _specialise(rng, t)
         t = _round12(t)
         f = _freqs(rng)
+        if case["kind"] == "rand" and rng.random() < 0.08:
+            G.inject_empty_series(rng, t)
+            kinds.add("empty_nested_series")
         if case["kind"] == "rand" and rng.random() < 0.15:
             f0 = _inject_trap(rng, t)
             if f0 is not None:
